@@ -1,6 +1,7 @@
 import Driver.Store
 import NixModel.Store.ApiW
 import NixModel.Generated.WriteOrder
+import NixModel.Generated.LinkOrder
 open Lean Nix.Store
 
 /-!
@@ -19,6 +20,11 @@ Additional ops:
         "DataArray.polynom_coefficients" | "Property.values"; stored = null | ["n/d", …]; arg = null |
         {"scalar": elem} | {"unsized": elem} | {"seq": [isArray, [elem, …]]} | {"nested": [isArray, rank, [elem, …]]};
         elem = ["n/d", typeOk, convOk, h5Ok]; answer {"ds": null | [rank, ["n/d", …]], "stamp": n, "err": null | class}
+  ["link_run", function, [hasLen, iterable, hasCount, isSeq], [[plain, minusOne, neg, cmpOk, storable], …],
+        [colIsInt, colVal], targetRank, targetCols, state]       the link-building functions of Pure/LinkWrite.lean run on
+        the step lists of Generated/LinkOrder.lean (stateless): function = a name of `LinkOrder.all`; state = null (the
+        descriptor does not exist yet) | [ticks, linked]; answer {"err": null | class, "dim": null | {"ticks": b,
+        "link": null | {"fresh": b, "complete": b, "index": null | n, "column": null | i}}, "ndims": n, "touched": b}
 -/
 namespace Driver.C12
 open Driver Driver.Store
@@ -156,8 +162,46 @@ def vecTicks (stored : Json) (linked : Json) (arg : Json) : Json :=
       ("err", match r.2 with | none => Json.null | some e => Json.str e.toString)])
   | _, _ => bad "vec_ticks"
 
+open Nix.LinkWrite in
+def parseEntry (j : Json) : Option Entry :=
+  match (jArr j).toList with
+  | [p, m, n, c, s] => some { plain := jBool p, minusOne := jBool m, neg := jBool n, cmpOk := jBool c, storable := jBool s }
+  | _ => none
+
+open Nix.LinkWrite Nix.Generated.LinkOrder in
+def linkRun (name : String) (caps entries col rank cols state : Json) : Json :=
+  let steps? := (Nix.Generated.LinkOrder.all.find? (·.1 == name)).map (·.2)
+  let file? : Option File :=
+    if isNull state then some { dim := none, ndims := 1, stamp := 1 }
+    else match (jArr state).toList with
+      | [t, l] =>
+        let old : Link := ⟨1, some true, some 3, some [], none, some 1, some 1⟩
+        some ⟨some ⟨jBool t, if jBool l then some old else none⟩, 2, 1⟩
+      | _ => none
+  match steps?, file?, (jArr caps).toList, (jArr entries).toList.mapM parseEntry, (jArr col).toList, jInt? rank, jInt? cols with
+  | some steps, some f, [a, b, c, d], some es, [ci, cv], some rk, some nc =>
+    let call : Call := ⟨⟨jBool a, jBool b, jBool c, jBool d, es⟩, ⟨jBool ci, (jInt? cv).getD 0⟩, 7, rk.toNat, nc.toNat, 5, 9⟩
+    let r := run call steps f
+    ok (Json.mkObj [
+      ("err", match r.2 with | none => Json.null | some e => Json.str e.toString),
+      ("dim", match r.1.dim with
+        | none => Json.null
+        | some dm => Json.mkObj [("ticks", Json.bool dm.ticks),
+            ("link", match dm.link with
+              | none => Json.null
+              | some l => Json.mkObj [
+                  ("fresh", Json.bool (l.id == 9)),
+                  ("complete", Json.bool (l.isArray.isSome && l.target.isSome && l.created.isSome && l.updated.isSome &&
+                                          (l.index.isSome || l.column.isSome))),
+                  ("index", match l.index with | none => Json.null | some ix => Json.num ix.length),
+                  ("column", match l.column with | none => Json.null | some v => Json.num v)])]),
+      ("ndims", Json.num r.1.ndims),
+      ("touched", Json.bool (r.1.stamp != 1))])
+  | _, _, _, _, _, _, _ => bad "link_run"
+
 def step (g : Graph) (j : Json) : Graph × Json :=
   match (jArr j).toList with
+  | [.str "link_run", .str name, caps, entries, col, rank, cols, state] => (g, linkRun name caps entries col rank cols state)
   | [.str "vec_set", .str name, stored, stamp, now, arg] => (g, vecSet name stored stamp now arg)
   | [.str "vec_ticks", stored, linked, arg] => (g, vecTicks stored linked arg)
   | [.str "create_block", nm, .str ty] =>
